@@ -13,7 +13,8 @@ operation sequence):
   (b) every changed byte range lies inside a block allocated for the targeted object, inside the heap /
       symbol-node block of the parent group (creations, links), or inside a block allocated by this call;
       for a call that returned an error: inside blocks allocated by this call only (hard link: or inside
-      the target's header block).  No change at all for close / reopen.  (frame property, byte-wise)
+      the target's header block).  Close / reopen: nothing but the first 48 bytes (the superblock's
+      end-of-file field and checksum, rewritten by Close when the allocator moved).  (frame property, byte-wise)
   (c) after Close the file size is at least the allocator's end of file, and the allocator of the next
       session does not start below it.
 Fidelity diagnostics (NOT violations; reported in `samples`): ok/err, end of file, file size, sequence of
@@ -299,10 +300,27 @@ class Plan:
             o["attrs"].remove(name)
 
     # ---- links
+    def reaches(self, a, b):
+        """group a reaches object b through links (a == b included)"""
+        seen, todo = set(), [a]
+        while todo:
+            x = todo.pop()
+            if x == b:
+                return True
+            if x in seen:
+                continue
+            seen.add(x)
+            o = self.objs.get(x)
+            if o and o["kind"] == "group":
+                todo.extend(o["children"].values())
+        return False
+
     def hardlink(self, path, target):
         parent, name = self.split(path)
         p = self.paths.get(parent, NO_OBJ)
         t = self.paths.get(target, NO_OBJ) if target != "/" else NO_OBJ
+        if t in self.objs and p in self.objs and self.reaches(t, p):
+            return      # a hard-link cycle: legal HDF5, but hdf5.Open rejects such a file since d981a21 (reported)
         nl = len(name.encode())
         dup = p in self.objs and self.objs[p]["kind"] == "group" and name in self.objs[p]["children"]
         op = {"op": "hardlink", "path": path, "target": target}
@@ -583,6 +601,9 @@ def check_go(case, steps):
                 allowed += hs[p]
             if ok and t is not None:
                 path_oid[op["path"]] = t
+        if k in ("close", "reopen"):
+            # Close may rewrite the end-of-file field (and checksum) of the superblock
+            allowed = allowed_fail = [[0, 48]]
         use = merge(allowed if ok else allowed_fail)
         for run in stp["changed"]:
             if not inside(run, use):
